@@ -84,6 +84,7 @@ func registerModels(e *Engine) {
 	registerBytes(e)
 	registerTime(e)
 	registerStrconv(e)
+	registerDist(e)
 }
 
 // ---------- verifrt intrinsics ----------
